@@ -66,9 +66,10 @@ let () =
         try List.find (fun it -> int_of_n it.i_name = nm) declared with Not_found -> failwith "order names an unknown item") order in
     let nitems = List.length items in
     let times = Hashtbl.create 16 in
+    (* committer times as the implementation read them *)
     List.iter (fun s -> match list_of_sx s with
         | cid :: tm :: _ -> Hashtbl.replace times (int_of_sx cid) (int_of_sx tm)
-        | _ -> failwith "commit") (args (field "commits" c));
+        | _ -> failwith "commit") (args (field "times" obs));
     let ncommits = List.length (args (field "commits" c)) in
     let commit_of cid = { c_id = ni cid; c_time = z_of_int (try Hashtbl.find times cid with Not_found -> 0) } in
     let plan = List.map (fun s -> match list_of_sx s with
@@ -179,10 +180,15 @@ let () =
            propfail id ("Run aborted with a different error than the failing call's: want " ^ string_of_sx want ^ " got " ^ string_of_sx res));
     (* inputs / once / in order / index / merge flag *)
     let early = is_err && incomplete = [] in
+    (* the oracle must accept the model's own log (consistency of oracle and model, every case) *)
+    let mcalls = consume_log out.ro_recs in
+    let mearly = (match out.ro_out with Failed (EHibernate _ | EBoot _) -> true | _ -> false) in
+    if out.ro_out <> Panicked && not (log_ok N.eqb mearly plan items plan N0 mcalls) then
+      mismatch id "the log oracle rejects the model interpreter's own log";
     if tag res = "res" && args res <> [A "panic"] then begin
       if not (log_ok N.eqb early plan items plan N0 calls) then begin
         (* name the first deviating call with the help of the model's log when that one passes *)
-        let mcalls = consume_log out.ro_recs in
+    
         let rec first i a b = match a, b with
           | x :: ar, y :: br -> if string_of_sx (sx_call x) = string_of_sx (sx_call y) then first (i + 1) ar br
               else Printf.sprintf "first deviation from the specified log at consume call #%d: got %s, specified %s" i (string_of_sx (sx_call x)) (string_of_sx (sx_call y))
